@@ -206,7 +206,7 @@ def stopAt (l : Nat) : List Tok → Bool
   | [] => true
   | .rp :: _ => true
   | .kw op :: _ => decide (op.lvl < l)
-  | _ => false
+  | t :: _ => t.endsExpr
 
 theorem stopAt_mono {l l' : Nat} {rest : List Tok} (h : stopAt l rest = true) (hl : l ≤ l') : stopAt l' rest = true := by
   cases rest with
@@ -218,7 +218,7 @@ theorem stopAt_mono {l l' : Nat} {rest : List Tok} (h : stopAt l rest = true) (h
 theorem stopAt_oFollow {l : Nat} {rest : List Tok} (h : stopAt l rest = true) : oFollow rest = true := by
   cases rest with
   | nil => rfl
-  | cons t r => cases t <;> simp_all [stopAt, oFollow]
+  | cons t r => cases t <;> simp_all [stopAt, oFollow, Tok.endsExpr]
 
 theorem opOf_lvl (op : Op) : opOf op.lvl = op := by cases op <;> rfl
 theorem Op.lvl_le (op : Op) : op.lvl ≤ 2 := by cases op <;> simp [Op.lvl]
@@ -292,7 +292,7 @@ theorem parseLabels_tail (l : Nat) : ∀ (ks : List String) (rest : List Tok), s
   | [], rest, h => by
     cases rest with
     | nil => simp [labelTail, parseLabels]
-    | cons t r => cases t <;> simp_all [stopAt, labelTail, parseLabels]
+    | cons t r => cases t <;> simp_all [stopAt, labelTail, parseLabels, Tok.endsExpr]
   | k :: ks, rest, h => by
     simp [labelTail, parseLabels, parseLabels_tail l ks rest h]
 
